@@ -581,6 +581,12 @@ class Interp:
             if f is None: raise Unsupported("promoted const " + c)
             return self.run(f, [])
         if c in ("RangeFull", "core::ops::RangeFull"): return Agg((), "RangeFull")
+        mm = re.match(r"^(?:core::num::<impl (\w+)>|(\w+))::(MAX|MIN|BITS)$", c)
+        if mm and (mm.group(1) or mm.group(2)) in INT_W:
+            t = mm.group(1) or mm.group(2); w = INT_W[t]; signed = t[0] == "i"
+            if mm.group(3) == "BITS": return w
+            if mm.group(3) == "MAX": return (1 << (w - 1)) - 1 if signed else (1 << w) - 1
+            return (1 << (w - 1)) if signed else 0
         nm = sc.split("::")[-1]
         if nm in self.P.consts:
             return self.const(self.P.consts[nm])
@@ -825,6 +831,9 @@ class Interp:
         if "unicode::" in key and len(args) == 1:
             m = re.search(r"(?:^|::)unicode::([A-Z][A-Z0-9_]*)$", key)
             if m: return self.unicode_property(m.group(1), args[0])
+        if "Argument" in key and ("::new_" in key or key.endswith("::from_usize")) and "fmt" in callee:
+            from .summaries_fmt import make_argument
+            return make_argument(self, callee, key, args)
         if key.endswith("::parse") and "parse::<" in callee and "str" in key:
             tgt = callee[callee.rindex("parse::<") + 8:].rstrip(">")
             from .summaries_str import as_str, concrete_bytes
@@ -882,6 +891,7 @@ class Interp:
             raise Unsupported("collect into " + tgt[:60])
         s = self.S.get(key)
         if s is not None:
+            self.cur_callee = callee
             return s(self, *args)
         if key[0] == "<":
             m = _TRAIT_CALL.match(key)
